@@ -54,7 +54,7 @@ def finish(prop, tier, seed, reg, keys, presults, py_results, known, wall):
     for r in presults:
         info = r.get("info") or {}
         if info:
-            f = functions.setdefault(r["key"], dict(function=info.get("function"), contract=r["key"], file=info.get("file"), lines=info.get("lines"), sha256=info.get("sha256"), paths=info.get("paths"), path_kinds=info.get("path_kinds"), wall_s=0.0, precondition_sat=info.get("precondition_sat")))
+            f = functions.setdefault(r["key"], dict(function=info.get("function"), contract=r["key"], file=info.get("file"), lines=info.get("lines"), sha256=info.get("sha256"), paths=info.get("paths"), path_kinds=info.get("path_kinds"), wall_s=0.0, precondition_sat=info.get("precondition_sat"), auto_inlined_callees=info.get("auto_inlined")))
             f["wall_s"] = round(f["wall_s"] + r.get("wall", 0.0), 2)
             if info.get("precondition_sat") == "unsat" or info.get("canary_feasible_path") is False or info.get("vacuous"):
                 canary_bad.append(r["key"])
